@@ -562,6 +562,12 @@ class _ProbeSocket(FakeSocket):
 def watchdog_threaded(pattern):
     import socket as _socket
 
+    # ("refused", k, lat...) = the first k connect attempts are refused before the link comes up
+    refused = 0
+    if pattern and pattern[0] == "refused":
+        refused, pattern = pattern[1], tuple(pattern[2:])
+    made = []
+
     import mysensors.gateway_tcp as gt
 
     S.install_library_shims()
@@ -571,8 +577,11 @@ def watchdog_threaded(pattern):
 
     def create_connection(address, timeout=None):
         env.attempts.append(sched.now)
+        if len(env.attempts) <= refused:
+            raise ConnectionRefusedError("connection refused (harness)")
         sock = _ProbeSocket(env, len(socks), pattern if not socks else [])
         socks.append(sock)
+        made.append(sched.now)
         return sock
 
     def select(rlist, wlist, xlist, timeout=None):
@@ -611,7 +620,7 @@ def watchdog_threaded(pattern):
 
     def body():
         gw.start()
-        horizon = (len(pattern) + 6) * R
+        horizon = (len(pattern) + 6 + refused) * R
         sched.block(lambda: len(socks) >= 2, ("env.wait-redial",), timeout=horizon)
         env.log.append(("observed", sched.now))
         sched.sleep(0.3 * R, ("env.pause",))  # let the new link come up before stopping
@@ -625,7 +634,7 @@ def watchdog_threaded(pattern):
     first = socks[0]
     lost = [e for e in env.log if e[0] == "lost"]
     drop = lost[0][1] if lost and len(socks) >= 2 else None
-    return {"probes": first.probes, "answers": first.answers, "drop": drop, "redial": env.attempts[1:2], "problem": sched.problem, "points": len(sched.points)}
+    return {"probes": first.probes, "answers": first.answers, "drop": drop, "redial": env.attempts[refused + 1 : refused + 2], "made": made[0] if made else 0.0, "problem": sched.problem, "points": len(sched.points)}
 
 
 def check_watchdog_threaded(chunk):
@@ -637,6 +646,9 @@ def check_watchdog_threaded(chunk):
         stats["latency_patterns_threaded"] += 1
         rep = {"kind": "watchdog-threaded", "check": PROP, "pattern": list(pattern)}
         res = watchdog_threaded(pattern)
+        if pattern and pattern[0] == "refused":
+            stats["patterns_after_refused_attempts"] += 1
+            pattern = tuple(pattern[2:])
         stats["scheduling_points"] += res["points"]
         if res["problem"] and res["problem"] != "deadlock":
             viols.append(Violation(PROP, f"watchdog|threaded|{res['problem']}", f"latencies {pattern}: execution ended in {res['problem']}", rep))
@@ -645,7 +657,7 @@ def check_watchdog_threaded(chunk):
         # an answer that reaches the socket at the very instant of the drop has not been processed by the
         # poll thread yet (lines are queued for it): it does not count as heard
         heard = [a for a in res["answers"] if res["drop"] is None or a < res["drop"] - 1e-6]
-        last_heard = max([0.0] + heard)
+        last_heard = max([res.get("made", 0.0)] + heard)  # silence counts from the moment the link came up
         if res["drop"] is None:
             viols.append(Violation(PROP, "watchdog|threaded|silent-link-kept", f"latencies {pattern}: the link was never dropped although answers stopped", rep))
             continue
